@@ -21,6 +21,13 @@ def decEval (f : String) : EvalResult :=
   if f == "N" then .notEvaled else if f == "R" then .reprRaises
   else .value (decStr (f.drop 1).toString)
 
+/-- the 32 settings of (ELLIPSIS, NORMALIZE_WHITESPACE, IGNORE_WHITESPACE, NORMALIZE_REPR,
+    DONT_ACCEPT_BLANKLINE), index bit 4 = ELLIPSIS … bit 0 = DONT_ACCEPT_BLANKLINE -/
+def allFlags : List Flags :=
+  (List.range 32).map fun n =>
+    { ellipsis := n / 16 % 2 == 1, normWs := n / 8 % 2 == 1, ignWs := n / 4 % 2 == 1,
+      normRepr := n / 2 % 2 == 1, noBlank := n % 2 == 1 }
+
 def opsChecker : List String → Option String
   | ["ellipsis", g, w] => some (encBool (ellipsisMatch (decStr g) (decStr w)))
   | ["split_ellipsis", w] => some (encStrList (splitEllipsis (decStr w)))
@@ -29,6 +36,14 @@ def opsChecker : List String → Option String
     let (g', w') := normalize (decFlags f) (decStr g) (decStr w)
     some (encStr g' ++ "\t" ++ encStr w')
   | ["check_output", f, g, w] => some (encBool (checkOutput (decFlags f) (decStr g) (decStr w)))
+  | ["check_output_all", g, w] =>
+    let g := decStr g; let w := decStr w
+    some (String.join (allFlags.map fun f => encBool (checkOutput f g w)))
+  | ["normalize_all", g, w] =>
+    let g := decStr g; let w := decStr w
+    some ("\t".intercalate (allFlags.map fun f =>
+      let (g', w') := normalize f g w
+      encStr g' ++ "\t" ++ encStr w'))
   | ["strip_ansi", s] => some (encStr (stripAnsi (decStr s)))
   | ["rm_prefix_u", s] => some (encStr (removePrefixes 'u' 'U' (decStr s)))
   | ["rm_prefix_b", s] => some (encStr (removePrefixes 'b' 'B' (decStr s)))
